@@ -69,3 +69,51 @@ def build(X):
     sl.rewrites.append({"rule": "slice", "what": "the statement `if !(ctx.query.allow_ctes && table_ref.prefer_cte) { .. }` of compile_relation_instance wrapped as fn inline_slice; "
                         "its `return Ok(expr)` becomes `return Ok(Some(expr))`, falling through (= define as a CTE) becomes Ok(None)"})
     return PRELUDE + sl.text + "\n} // verus!\nfn main() {}\n"
+
+
+# ----------------------------------------------------------------------------- replay on the real compiler
+SETUP = "create table t(a integer, b integer); insert into t values (1,1),(2,2),(3,3); create table s(a integer, b integer); insert into s values (9,9);"
+CASES = [
+    "let recent = (from t | select {a, b} | filter a > 1)\nfrom s\nselect {a, b}\nappend recent\nappend recent\n",
+    "let recent = (from t | select {a, b} | filter a > 1)\nfrom s\nselect {a, b}\nappend recent\ntake 10\njoin recent (==a)\n",
+    "let recent = (from t | select {a, b} | filter a > 1)\nfrom recent\nappend recent\n",
+]
+
+
+def _try(src):
+    import replaylib
+    out = None
+    for target in ("sql.sqlite", "sql.generic"):
+        ok, sql = replaylib.compile_prql(src, target)
+        if not ok:
+            return {"input": src, "expected": "SQL that SQLite prepares", "observed": sql[:400], "failing": sql.startswith("PANIC"), "replay_kind": "prepare", "target": target}
+        ok2, rows = replaylib.sqlite_rows(SETUP, sql)
+        out = {"input": src, "expected": "SQL that SQLite prepares", "observed": ("ok: %d rows" % len(rows)) if ok2 else "sqlite error: %s\n%s" % (rows, sql[:600]),
+               "failing": not ok2, "replay_kind": "prepare", "target": target}
+        if not ok2:
+            return out
+    return out
+
+
+def replay(failure):
+    for src in CASES:
+        r = _try(src)
+        if r["failing"]:
+            return r
+    return {"failing": False}
+
+
+def rerun(doc):
+    return _try(doc["input"])
+
+
+SWEEP_DOC = "a let-table used as the operand of append and referenced again (append, join, from): compiled by the real prqlc for sql.sqlite and sql.generic; SQLite must be able to prepare and run the SQL"
+
+
+def sweep():
+    out = []
+    for src in CASES:
+        r = _try(src)
+        r["obligation"] = "cte_define.CI1"
+        out.append(r)
+    return out
